@@ -171,7 +171,7 @@ func runCase(ld *Loaded, c Case, known map[string]bool, timeoutMs int, defSolver
 		defer f.Close()
 	}
 	ex := &Exec{tb: NewTB(), solver: solver, prog: ld.prog, pkg: ld.pkg, sizes: types.SizesFor("gc", "amd64"),
-		fninfo: map[*ssa.Function]*FnInfo{}, globals: map[*ssa.Global]int{}, Kunwind: 64, Kalloc: 4096, MaxDepth: 200,
+		fninfo: map[*ssa.Function]*FnInfo{}, globals: map[*ssa.Global]int{}, Kunwind: 64, Kalloc: 4096, Kgrow: 64, MaxDepth: 200,
 		knownOK: known, reached: map[string]bool{}, reachModel: map[string][]uint64{}, funcsSeen: map[string]bool{}, stubsSeen: map[string]bool{},
 		harness: c.Harness, unwound: map[string]int{}, feasCache: map[int]string{}}
 	if v, ok := c.Opts["unwind"]; ok {
@@ -179,6 +179,13 @@ func runCase(ld *Loaded, c Case, known map[string]bool, timeoutMs int, defSolver
 	}
 	if v, ok := c.Opts["alloc"]; ok {
 		ex.Kalloc = v
+	}
+	if v, ok := c.Opts["grow"]; ok {
+		ex.Kgrow = v
+	}
+	ex.tb.maxTerms = 4000000
+	if v, ok := c.Opts["maxterms"]; ok {
+		ex.tb.maxTerms = v
 	}
 	ex.primaryMs = 3000
 	if v, ok := c.Opts["primaryms"]; ok {
@@ -786,7 +793,7 @@ func main() {
 		},
 		"assumptions": append([]string{
 			"gosym interprets go/ssa of /repo's current tree; its semantics are cross-checked on every run by replaying solver models natively and comparing observed values",
-			"int/uint/uintptr are 64 bits (gc/amd64); append growth gives capacity exactly the new length",
+			"int/uint/uintptr are 64 bits (gc/amd64); append growth over-allocates to a constant capacity (Go only promises cap >= len)",
 			"SMT solver answers (z3 4.8.12 by default) are trusted; any (error, unknown or timeout makes the run inconclusive, never a pass",
 		}, ps.Assumptions...),
 	}
